@@ -142,12 +142,8 @@ def run(ctx):
         ctx.correspondence_broken("table-generator", info["problems"][:5])
     ctx.proofs()
     tab_ok, failing, tlog = ae.table_obligations(ctx)
-    ok, log = common.ocaml_build()
-    if not os.path.exists(ae.model_binary()):
-        ctx.correspondence_broken("ocaml-build", log[-2000:])
+    if not ae.build_model(ctx):
         return
-    if not ok:
-        ctx.notes["ocaml_build_note"] = "bin/build-ocaml reported a failure in another engine: " + log[-300:]
     Ta = ae.tools("asan")
 
     counts = collections.Counter()
